@@ -150,6 +150,10 @@ def render(n):
         return f"({ADV_OPS[n[1]]}\\{render(n[2])})"
     if k == "over":
         return f"({ADV_OPS[n[1]]}/{render(n[2])})"
+    if k == "colfold":
+        return f"({ADV_OPS[n[1]]}/{render(n[2])})"      # Over on a matrix folds its ROWS: one result per column
+    if k == "mcount":
+        return f"(#{render(n[1])})"                     # number of rows
     if k == "sum":
         return f"(+/{render(n[1])})"
     if k == "prod":
@@ -362,6 +366,25 @@ def gen_m(rng, depth, allow_trans, pname="x"):
     return ["par", pname]
 
 
+def matfold_tree(rng, mat, pname, allow_trans):
+    """nested folds over a matrix: an outer +/ of something NON-LINEAR in an inner fold along the rows
+    (+/M */M |/M &/M give one value per column) — not symmetric in rows and columns"""
+    r_, c_ = len(mat), len(mat[0])
+    inner = ["colfold", rng.choice(["+", "+", "*", "|", "&"]), gen_m(rng, rng.choice([0, 0, 1]), allow_trans, pname), r_, c_]
+    kind = rng.choice(["square", "mean-square", "weighted", "cube", "recip"])
+    if kind == "square":
+        v = ["pow", inner, 2]
+    elif kind == "mean-square":
+        v = ["pow", ["div", inner, ["mcount", ["par", pname], r_]], 2]
+    elif kind == "weighted":
+        v = ["mul", inner, ["vconst", [frs(rng.choice(CONSTS)) for _ in range(c_)]]]
+    elif kind == "cube":
+        v = ["call", "cube", inner]
+    else:
+        v = ["pow", ["add", ["mul", inner, inner], ["const", "1/1"]], -1]
+    return [rng.choice(["sum", "sum", "prod"]), v]
+
+
 def gen_join(rng, env, depth, allow_trans):
     """vector-valued g for the Jacobian forms: an elementwise vector or a join of pieces"""
     vec_lens = sorted({len(env.params[k]) for k in env.params if env.kind(k) == "V"})
@@ -549,6 +572,19 @@ def pd_eval(n, env, seed):
         return _map(pd_eval(n[1], env, seed), lambda a: dn_pow(a, n[2]))
     if k == "gpow":
         return _bc(pd_eval(n[1], env, seed), pd_eval(n[2], env, seed), dn_gpow)
+    if k == "colfold":
+        # f/M over an r x c matrix (seen flattened, row-major): out[j] = M[0][j] f M[1][j] f ...
+        vs, r_, c_ = pd_eval(n[2], env, seed), n[3], n[4]
+        f = {"+": dn_add, "*": dn_mul}[n[1]]
+        out = []
+        for j in range(c_):
+            acc = vs[j]
+            for i in range(1, r_):
+                acc = f(acc, vs[i * c_ + j])
+            out.append(acc)
+        return out
+    if k == "mcount":
+        return dn_const(Fr(n[2]))
     if k == "over":
         vs = pd_eval(n[2], env, seed)
         f = {"+": dn_add, "-": lambda u, v: dn_add(u, v, -1), "*": dn_mul, "%": dn_div}[n[1]]
@@ -634,6 +670,20 @@ def resolve_minmax(n, env):
                     best = (node, v)
             out.append(best[0])
         return best[0] if n[0] in ("over", "overN") else ["join", out]
+    if n and n[0] == "colfold" and n[1] in ("&", "|"):
+        mat, r_, c_ = resolve_minmax(n[2], env), n[3], n[4]
+        vals = pd_eval(mat, env, 0)
+        out = []
+        for j in range(c_):
+            best = None
+            for i in range(r_):
+                v = vals[i * c_ + j].v
+                if best is not None and abs(v - best[1]) < Fr(1, 4):
+                    raise NotSmooth("min / max at (or near) a tie")
+                if best is None or (v < best[1]) == (n[1] == "&"):
+                    best = (i * c_ + j, v)
+            out.append(["idx", mat, best[0]])
+        return ["join", out]
     if n and n[0] in ("const", "vconst", "par"):
         return n
     if n and n[0] == "join":
@@ -689,6 +739,12 @@ def lower(n, env):
         if kb == "V":
             return "V", [(op, a, y) for y in b]
         return "S", (op, a, b)
+    if k == "colfold":
+        _, vs = lower(n[2], env)
+        r_, c_ = n[3], n[4]
+        return "V", [({"+": "S", "*": "P"}[n[1]], [vs[i * c_ + j] for i in range(r_)]) for j in range(c_)]
+    if k == "mcount":
+        return "S", ("c", Fr(n[2]))
     if k == "over":
         _, vs = lower(n[2], env)
         acc = vs[0]
@@ -1205,7 +1261,10 @@ def gen_case(rng, quick):
             tree = gen_s(rng, env, depth, allow_trans)
         elif fam == "matrix":
             params = {"x": gen_point(rng, "M")}
-            tree = ["sum", ["flat", gen_m(rng, max(1, depth), allow_trans)]]
+            if rng.random() < 0.5:
+                tree = ["sum", ["flat", gen_m(rng, max(1, depth), allow_trans)]]
+            else:
+                tree = matfold_tree(rng, params["x"], "x", allow_trans)
             env = Env(params)
         elif fam == "jac":
             params = {"x": gen_point(rng, rng.choice(["V", "V", "S"]))}
@@ -1227,8 +1286,9 @@ def gen_case(rng, quick):
             if "M" in names:
                 # a matrix parameter (half of the time with the transposed, column-major layout)
                 var = dict(transposed=rng.random() < 0.6)
-                tree = [rng.choice(["add", "mul"]), ["sum", ["flat", gen_m(rng, max(1, depth - 1), allow_trans, "M")]],
-                        gen_s(rng, env, depth - 1, allow_trans)]
+                inner = ["sum", ["flat", gen_m(rng, max(1, depth - 1), allow_trans, "M")]] if rng.random() < 0.5 \
+                    else matfold_tree(rng, params["M"], "M", allow_trans)
+                tree = [rng.choice(["add", "mul"]), inner, gen_s(rng, env, depth - 1, allow_trans)]
             else:
                 tree = gen_s(rng, env, depth, allow_trans) if fam == "multi" else gen_join(rng, env, depth, allow_trans)
         if tree_size(tree) > (14 if quick else 22):
@@ -1667,8 +1727,11 @@ def _run_case(ctx, model, real, fam, tree, params, forms=None, backends=None, qu
                 if (np.abs(got - C) > allow).any() and proj and form not in ("nabla", "nabla-sym", "nabla-inline"):
                     # right derivative, wrong rounding: the function evaluated is not the projection (its
                     # fixed slots were read from the same-named globals) but happens to have the same gradient
-                    ctx.bump("deviation:projection:fixed-arguments-dropped")
-                    ctx.oracle_fail("projection:fixed-arguments-dropped", case, C.tolist(), got.tolist(),
+                    # (through `.jacobian` an inline projection is the older system-function-argument finding)
+                    key_ = "sysjac:function-argument-evaluation" if form in ("sysjac", "sysjac-named") \
+                        else "projection:fixed-arguments-dropped"
+                    ctx.bump("deviation:" + key_)
+                    ctx.oracle_fail(key_, case, C.tolist(), got.tolist(),
                                     "the central difference is not that of the projection: its fixed arguments were "
                                     "replaced by same-named globals (the gradient happens to coincide)")
                 elif (np.abs(got - C) > allow).any():
@@ -2117,6 +2180,20 @@ FIXED = [
     ("jac", ["join", [["each2", "+", ["par", "x"], ["const", "1/1"]], ["gpow", ["par", "x"], ["par", "x"]]]], {"x": Fr(2)}),
     ("jac", ["join", [["const", "1/4"], ["call", "sqrt", ["idx", ["pow", ["par", "x"], 0], 0]]]],
      {"x": [Fr(1, 2), Fr(3), Fr(3)]}),
+    # nested folds over a MATRIX: Over folds the rows (axis 0); something non-linear between the folds
+    ("matrix", ["sum", ["pow", ["colfold", "+", ["par", "x"], 2, 2], 2]], {"x": [[Fr(1), Fr(2)], [Fr(3), Fr(5)]]}),
+    ("matrix", ["sum", ["pow", ["div", ["colfold", "+", ["par", "x"], 3, 2], ["mcount", ["par", "x"], 3]], 2]],
+     {"x": [[Fr(1), Fr(2)], [Fr(3), Fr(5)], [Fr(-1), Fr(1, 2)]]}),
+    ("matrix", ["sum", ["pow", ["colfold", "*", ["par", "x"], 2, 3], 2]], {"x": [[Fr(1), Fr(2), Fr(3)], [Fr(3), Fr(5), Fr(1, 2)]]}),
+    ("matrix", ["sum", ["pow", ["colfold", "|", ["par", "x"], 2, 2], 2]], {"x": [[Fr(1), Fr(5)], [Fr(3), Fr(2)]]}),
+    ("matrix", ["sum", ["pow", ["colfold", "&", ["mul", ["par", "x"], ["par", "x"]], 2, 2], 2]],
+     {"x": [[Fr(1), Fr(5)], [Fr(3), Fr(2)]]}),
+    ("matrix", ["sum", ["pow", ["colfold", "+", ["par", "x"], 2, 2], 2]], {"x": [[Fr(1), Fr(2)], [Fr(3), Fr(5)]]},
+     dict(transposed=True)),
+    ("multi", ["sum", ["pow", ["colfold", "+", ["mul", ["par", "M"], ["par", "M"]], 2, 2], 2]],
+     {"M": [[Fr(1), Fr(2)], [Fr(3), Fr(5)]]}),
+    ("multi", ["mul", ["sum", ["pow", ["colfold", "+", ["par", "M"], 2, 3], 2]], ["par", "b"]],
+     {"M": [[Fr(1), Fr(2), Fr(3)], [Fr(3), Fr(5), Fr(1, 2)]], "b": Fr(1, 2)}),
     # Over / Scan with every arithmetic verb over 3-5 members
     ("vector", ["over", "-", ["pow", ["par", "x"], 2]], {"x": [Fr(3), Fr(1), Fr(2)]}),
     ("vector", ["over", "%", ["par", "x"]], {"x": [Fr(3), Fr(1, 2), Fr(2), Fr(-1)]}),
